@@ -89,7 +89,9 @@ PROOFS = [
     {'name': 'Q_ctor', 'enforce': 'Pistache_Http_Mime_Q_ctor', 'props': ['C18']},
     {'name': 'Q_fromFloat', 'enforce': 'Pistache_Http_Mime_Q_fromFloat', 'props': ['C18', 'C03'], 'flags': ['--conversion-check', '--float-overflow-check', '--nan-check'],
      'replay': {'driver': 'qfloat', 'argv': ['$f'], 'link': False}},
-    {'name': 'MediaType_parseRaw', 'enforce': 'Pistache_Http_Mime_MediaType_parseRaw', 'loops': 'contracts', 'props': ['C18', 'C03'], 'quick_props': ['C18'], 'cost': 60, 'timeout': 3600, 'object_bits': 11, 'mem_gb': 24, 'defs': ['-DVS_LIGHT'],
+    # thorough tier only: 9 minutes on this machine since the q-name assertion (the reference machine of `vp check` is slower and stops a quick
+    # check after 15); the quick tier keeps the small proofs and the native sweeps below (letter case of the quality parameter included)
+    {'name': 'MediaType_parseRaw', 'tier': 'thorough', 'enforce': 'Pistache_Http_Mime_MediaType_parseRaw', 'loops': 'contracts', 'props': ['C18', 'C03'], 'cost': 60, 'timeout': 3600, 'object_bits': 11, 'mem_gb': 24, 'defs': ['-DVS_LIGHT'],
      'harness': 'void h_MediaType_parseRaw(void) { struct Pistache_Http_Mime_MediaType *a0; char *a1; size_t a2; Pistache_Http_Mime_MediaType_parseRaw(a0, a1, a2); }\n',
      'replace': [ADV, 'Pistache_match_string', 'Pistache_match_literal', 'Pistache_match_raw', 'Pistache_match_until_il', 'Pistache_match_until_c', 'Pistache_match_double', 'Pistache_Http_Mime_Q_fromFloat']},
 ]
@@ -102,5 +104,6 @@ _TEXTS = ["text/html", "text/html; q=0.5; charset=utf-8", "application/vnd.foo+j
 NATIVE_SWEEPS += [
     {'name': 'media_type_tables', 'quick': True, 'driver': 'mime_rt', 'props': ['C18'], 'what': 'MediaType::toString + parseRaw over every (type, subtype, suffix) of the tables', 'argvs': [['tables']]},
     {'name': 'media_type_quality', 'quick': True, 'driver': 'mime_rt', 'props': ['C18'], 'what': 'Q::toString + parseRaw', 'argvs': [['q', v] for v in range(101)]},
+    {'name': 'media_type_letter_case', 'quick': True, 'driver': 'mime_rt', 'props': ['C18'], 'what': 'toString in upper case + parseRaw (type, subtype and the q parameter are case-insensitive)', 'argvs': [['case', v] for v in (0, 1, 50, 80, 99, 100)]},
     {'name': 'media_type_texts', 'driver': 'mime_rt', 'props': ['C18', 'C03'], 'what': 'MediaType::fromRaw on unterminated text', 'argvs': [['text', t.encode('latin-1').hex() or '-'] for t in _TEXTS]},
 ]
